@@ -96,10 +96,132 @@ def ob_reconcile(cx):
     cx.observe("conflicts", list(conflicts))
 
 
+class _Branch:
+    def __init__(self, name, log, master=None, has_tags=True):
+        self.name = name
+        self.log = log
+        self.master = master
+        self.has_tags = has_tags
+        self.tags = None
+
+    def supports_tags(self):
+        return self.has_tags
+
+    def lock_write(self):
+        import contextlib
+        self.log.append(("lock", self.name))
+
+        @contextlib.contextmanager
+        def cm():
+            try:
+                yield
+            finally:
+                self.log.append(("unlock", self.name))
+        return cm()
+
+    def get_master_branch(self):
+        return self.master
+
+
+class _Tags:
+    def __init__(self, branch, d):
+        self.branch = branch
+        self.d = d
+        branch.tags = self
+        self.sets = []
+
+    def get_tag_dict(self):
+        return self.d
+
+    def _set_tag_dict(self, new):
+        self.sets.append(new)
+        self.d = new
+
+
+def _expected(cx, src_ents, dst_ents, overwrite):
+    """Reference reconciliation on entry lists -> (result entries, updates, conflicts)."""
+    res = list(dst_ents)
+    upd, conf = [], []
+    for name, sv in src_ents:
+        hit = [i for i, (dn, _dv) in enumerate(res) if cx.truth(dn == name)]
+        if not hit:
+            res.append((name, sv))
+            upd.append((name, sv))
+        elif cx.truth(res[hit[0]][1] == sv):
+            pass
+        elif overwrite:
+            res[hit[0]] = (name, sv)
+            upd.append((name, sv))
+        else:
+            conf.append((name, sv, res[hit[0]][1]))
+    return res, upd, conf
+
+
+def _same_entries(cx, d, ents):
+    if len(d) != len(ents):
+        return False
+    return all((n in d) and cx.truth(d[n] == v) for n, v in ents)
+
+
+def ob_inter_merge(cx):
+    """InterTags.merge: the destination (and its master, unless ignored) end up reconciled; everything is reported."""
+    T = cx.mod(TG)
+    log = []
+    n = cx.p("n_inter")
+    src, sents = _mkdict(cx, "src", cx.choose("nsrc", 0, n), cx.p("lname"), cx.p("alpha"))
+    dst, dents = _mkdict(cx, "dst", cx.choose("ndst", 0, n), cx.p("lname"), cx.p("alpha"))
+    overwrite = bool(cx.choose("overwrite", 0, 1))
+    has_master = bool(cx.choose("has_master", 0, 1))
+    ignore_master = bool(cx.choose("ignore_master", 0, 1))
+    mst, ments = (None, [])
+    master = None
+    if has_master:
+        mst, ments = _mkdict(cx, "mst", cx.choose("nmst", 0, n), cx.p("lname"), cx.p("alpha"))
+        master = _Branch("master", log)
+        mtags = _Tags(master, mst)
+    sb, tb = _Branch("source", log), _Branch("target", log, master)
+    stags, ttags = _Tags(sb, src), _Tags(tb, dst)
+    inter = T.InterTags(stags, ttags)
+    updates, conflicts = inter.merge(overwrite=overwrite, ignore_master=ignore_master)
+    want_dst, upd_d, conf_d = _expected(cx, sents, dents, overwrite)
+    cx.require(_same_entries(cx, ttags.get_tag_dict(), want_dst), "destination tags are not the reconciliation of source and destination")
+    all_upd, all_conf = list(upd_d), list(conf_d)
+    if has_master and not ignore_master and sents:
+        want_m, upd_m, conf_m = _expected(cx, sents, ments, overwrite)
+        cx.require(_same_entries(cx, mtags.get_tag_dict(), want_m), "master tags are not the reconciliation of source and master")
+        all_upd += upd_m
+        all_conf += conf_m
+        cx.cover("master_updated")
+    elif has_master:
+        cx.require(not mtags.sets, "master tags were modified although the master is to be ignored / nothing to copy")
+    for name, sv in all_upd:
+        cx.require(name in updates and cx.truth(updates[name] == sv), "an added / overwritten tag is missing from the reported updates")
+    for c in all_conf:
+        cx.require(any(cx.truth(c[0] == g[0]) and cx.truth(c[1] == g[1]) and cx.truth(c[2] == g[2]) for g in conflicts),
+                   "a conflicting tag is missing from the reported conflicts")
+    for g in conflicts:
+        cx.require(any(cx.truth(c[0] == g[0]) and cx.truth(c[1] == g[1]) and cx.truth(c[2] == g[2]) for c in all_conf),
+                   "a conflict was reported that is none")
+    locks = [e for e in log if e[0] == "lock"]
+    unlocks = [e for e in log if e[0] == "unlock"]
+    cx.require(len(locks) == len(unlocks), "a branch was left locked")
+    if all_conf:
+        cx.cover("conflict")
+    if all_upd:
+        cx.cover("updated")
+    cx.observe("dst", list(ttags.get_tag_dict().items()))
+    cx.observe("nupd", len(updates))
+
+
 def obligations(tier):
     q = tier == "quick"
-    p = dict(n=2 if q else 3, lname=2, alpha="abé")
-    return [Ob("reconcile", ob_reconcile, [(TG, dict(symdict=True))], p, 900 if q else 7200, 2 if q else 1,
+    p = dict(n=2 if q else 3, lname=2, alpha="abé", n_inter=1 if q else 2)
+    lift = [(TG, dict(symdict=True))]
+    to = 900 if q else 7200
+    return [Ob("reconcile", ob_reconcile, lift, p, to, 2 if q else 1,
                ["unselected", "added", "same", "overwritten", "conflict"],
                bounds="<= %(n)d tags per dictionary, names <= %(lname)d chars over %(alpha)r, unbounded revision ids, "
-                      "overwrite on/off, with and without selector" % p)]
+                      "overwrite on/off, with and without selector" % p),
+            Ob("inter_tags_merge", ob_inter_merge, lift, p, to, 2 if q else 1, ["master_updated", "conflict", "updated"],
+               bounds="InterTags.merge over stub branches: <= %(n_inter)d tags in each of source / destination / master, "
+                      "overwrite, with/without master, ignore_master" % p)]
